@@ -41,7 +41,7 @@ func (e *encoder) tx(t Rec, path string) {
 	vin := t.L("vin")
 	e.put(CompactSize(uint64(len(vin))), path+"vin.count", ClassCount, uint64(len(vin)))
 	for i, in := range vin {
-		p := fmt.Sprintf("%svin[%d].", path, i)
+		p := e.pth("%svin[%d].", path, i)
 		h := in.B("prev_hash")
 		if len(h) != 32 {
 			panic("refwire: prev_hash must be 32 bytes")
@@ -56,7 +56,7 @@ func (e *encoder) tx(t Rec, path string) {
 	vout := t.L("vout")
 	e.put(CompactSize(uint64(len(vout))), path+"vout.count", ClassCount, uint64(len(vout)))
 	for i, out := range vout {
-		p := fmt.Sprintf("%svout[%d].", path, i)
+		p := e.pth("%svout[%d].", path, i)
 		e.put(le(out.U("value"), 8), p+"value", ClassData, out.U("value"))
 		s := out.B("pk_script")
 		e.put(CompactSize(uint64(len(s))), p+"pk_script.len", ClassCount, uint64(len(s)))
@@ -64,12 +64,12 @@ func (e *encoder) tx(t Rec, path string) {
 	}
 	if wit {
 		for i, in := range vin {
-			p := fmt.Sprintf("%svin[%d].witness", path, i)
+			p := e.pth("%svin[%d].witness", path, i)
 			w := in.BL("witness")
 			e.put(CompactSize(uint64(len(w))), p+".count", ClassCount, uint64(len(w)))
 			for j, item := range w {
-				e.put(CompactSize(uint64(len(item))), fmt.Sprintf("%s[%d].len", p, j), ClassCount, uint64(len(item)))
-				e.put(item, fmt.Sprintf("%s[%d]", p, j), ClassData, 0)
+				e.put(CompactSize(uint64(len(item))), e.pth("%s[%d].len", p, j), ClassCount, uint64(len(item)))
+				e.put(item, e.pth("%s[%d]", p, j), ClassData, 0)
 			}
 		}
 	}
@@ -83,17 +83,22 @@ func EncodeTx(t Rec, witness bool) ([]byte, []Span) {
 	return e.b, e.spans
 }
 
+// EncodeTxBytes is EncodeTx without the span bookkeeping.
+func EncodeTxBytes(t Rec, witness bool) []byte {
+	e := &encoder{c: Ctx{Witness: witness}, noSpans: true}
+	e.tx(t, "")
+	return e.b
+}
+
 // TxID is the double SHA256 of the legacy serialisation (BIP141 "txid").
 func TxID(t Rec) [32]byte {
-	b, _ := EncodeTx(t, false)
-	return DSha256(b)
+	return DSha256(EncodeTxBytes(t, false))
 }
 
 // WTxID is the double SHA256 of the BIP144 serialisation (BIP141 "wtxid"); it
 // equals the txid when the transaction carries no witness.
 func WTxID(t Rec) [32]byte {
-	b, _ := EncodeTx(t, true)
-	return DSha256(b)
+	return DSha256(EncodeTxBytes(t, true))
 }
 
 // tx parses one transaction.  With d.c.Witness a zero input count is the
